@@ -9,6 +9,8 @@ mod zoo;
 mod wf;
 mod hist;
 mod docs;
+mod alloc;
+mod sched;
 mod checks;
 
 fn usage() -> ! {
